@@ -6,8 +6,8 @@ EXTENDS Dispatch, Json, SequencesExt
 CONSTANT Full
 VARIABLES cfg
 RuleSpace(id) ==
-    [id : {id}, lang : {"JavaScript", "TypeScript"}, files : {{}, {"src/**"}, {"**/sub/**", "src/a.js"}},
-     ignores : {{}, {"test/**"}, {"**/*.js"}}, sev : {"error", "warning", "off"}]
+    [id : {id}, lang : {"JavaScript", "TypeScript"}, files : {{}, {"src/**"}, {"**/sub/**", "src/a.js"}, {"src/*.js"}},
+     ignores : {{}, {"test/**"}, {"**/*.js"}, {"src/*.js"}}, sev : {"error", "warning", "off"}]
 Overrides ==
     { [dflt |-> d, byId |-> b, filter |-> f] :
         d \in {"none", "error", "off"},
